@@ -680,7 +680,76 @@ fn relay_algebra(w: &mut World, n: usize, a: &[u64]) -> VResult {
         return Ok(());
     }
     let mode = a[0];
-    let ps: Vec<Rc<Payload>> = a[1..].iter().map(|i| w.mon.pool[(*i as usize) % w.mon.pool.len()].0.clone()).collect();
+    let mut ps: Vec<Rc<Payload>> = a[1..].iter().map(|i| w.mon.pool[(*i as usize) % w.mon.pool.len()].0.clone()).collect();
+    if mode & 16 == 16 {
+        // A provider that answers stale or foreign state vectors: one or two more inputs are exports
+        // of a replica against a state vector that cuts through its blocks at arbitrary clocks (so the
+        // same clock range reaches the merge as a slice of a long squashed block from one replica, as
+        // a collected range from another, and as the original small blocks from the update log).
+        // The cut points are a function of the event's arguments and the world, not of the PRNG.
+        let mut h = a.iter().fold(0x9E37_79B9_7F4A_7C15u64, |h, x| (h ^ x).wrapping_mul(0x1000_0000_01B3).rotate_left(23));
+        let mut next = move || {
+            h ^= h << 13;
+            h ^= h >> 7;
+            h ^= h << 17;
+            h
+        };
+        let k = 1 + ((mode >> 5) & 1);
+        for _ in 0..k {
+            let m = (next() % w.nodes.len() as u64) as usize;
+            let txn = w.nodes[m].doc.transact();
+            let mut sv = StateVector::default();
+            for (c, clock) in sv_vec(&txn.state_vector()) {
+                let cut = (next() % (clock as u64 + 1)) as u32;
+                if cut > 0 {
+                    sv.set_max(yrs::block::ClientID::new(c), cut);
+                }
+            }
+            let p = if next() & 1 == 0 {
+                Payload { v1: txn.encode_state_as_update_v1(&sv), v2: txn.encode_state_as_update_v2(&sv) }
+            } else {
+                Payload { v1: txn.encode_diff_v1(&sv), v2: txn.encode_diff_v2(&sv) }
+            };
+            let full = txn.encode_state_as_update_v1(&StateVector::default());
+            drop(txn);
+            // A cut between the two halves of a surrogate pair is not an input a replica can produce
+            // (no block of a yrs replica ends there) and the encoder drops the orphaned half, which
+            // shifts every later clock of that client: such an export is discarded, recognised by the
+            // clock ranges it covers being different from those of the full export beyond the cut.
+            // canonical (sorted, merged) clock ranges an export inserts, per client, at or after `from`
+            let cov = |bytes: &[u8], from: &StateVector| -> Option<Vec<(u64, Vec<(u32, u32)>)>> {
+                let u = Update::decode_v1(bytes).ok()?;
+                let mut out: Vec<(u64, Vec<(u32, u32)>)> = Vec::new();
+                for (client, ranges) in u.insertions(true).iter() {
+                    let lo = from.get(client);
+                    let mut v: Vec<(u32, u32)> = ranges.iter().map(|r| (r.start.max(lo), r.end)).filter(|(a, b)| b > a).collect();
+                    v.sort();
+                    let mut m: Vec<(u32, u32)> = Vec::new();
+                    for (a, b) in v {
+                        match m.last_mut() {
+                            Some(l) if a <= l.1 => l.1 = l.1.max(b),
+                            _ => m.push((a, b)),
+                        }
+                    }
+                    if !m.is_empty() {
+                        out.push((client.get(), m));
+                    }
+                }
+                out.sort();
+                Some(out)
+            };
+            let consistent = match (cov(&p.v1, &StateVector::default()), cov(&full, &sv)) {
+                (Some(a), Some(b)) => a == b,
+                _ => false,
+            };
+            if !consistent {
+                *w.stats.probes.entry("relay.mid-surrogate-cut-discarded".to_string()).or_insert(0) += 1;
+                continue;
+            }
+            *w.stats.probes.entry("relay.mid-block-slice-input".to_string()).or_insert(0) += 1;
+            ps.push(Rc::new(p));
+        }
+    }
     let v2 = mode & 4 == 4;
     let enc = if v2 { Enc::V2 } else { Enc::V1 };
     w.stats.f_relay += 1;
